@@ -174,7 +174,15 @@ def framing(ck, thorough, binp, jobs):
     ck.set("framing_numeric_looking_string_ids_read_back", s["numeric_string_ids_read"])
     ck.set("framing_catalogue", [{k: r[k] for k in ("kind", "idk", "id", "blen", "rlen")} for r in rows])
 
-    # binding self-tests: a behaviour whose expectation was corrupted must be reported
+    if not ck._nviol:
+        framing_selftest(ck, behs, binp, sc)
+    framing_mc(ck, jobs)
+    return s["behaviours"]
+
+
+def framing_selftest(ck, behs, binp, sc):
+    # binding self-tests: a behaviour whose expectation was corrupted must be reported (meaningful only while
+    # the real code agrees with the model)
     bad = next((b for b in behs if b["class"] == "bad" and b["variant"] in ("zero", "nocolon", "missing", "negative")), None)
     if bad is None:
         raise vlib.InfraError("no malformed behaviour available for the binding self-test")
@@ -199,6 +207,8 @@ def framing(ck, thorough, binp, jobs):
         raise vlib.InfraError("binding self-test failed: a forged id type (string id expected back as a number) was not reported")
     ck.set("framing_binding_selftest", "forged expectation reported; forged id type reported")
 
+
+def framing_mc(ck, jobs):
     # --- MC (started earlier, concurrently) -------------------------------------------------------
     closed = jobs.get("f_closed")
     if not closed.ok:
@@ -214,7 +224,6 @@ def framing(ck, thorough, binp, jobs):
             raise vlib.InfraError("negative config %s (%s) was not rejected by %s (got %s)" % (cfg, what, inv, neg.violated))
     ck.set("framing_negative_config_rejected", True)
     ck.set("framing_negative_configs_rejected", [w for _, _, w in FRAMING_NEG])
-    return s["behaviours"]
 
 
 def show(i):
@@ -425,6 +434,9 @@ def conn(ck, thorough, jobs):
         if c["id"] in accepted and c.get("timedout"):
             ck.violation("JsonRpc.CallsReturn", "conn (burst): calls of callers %s did not return within the watchdog time although the peer answered every request"
                          % c["timedout"], {"events": [render(e) for e in c["ev"]]})
+
+    if ck._nviol:
+        return len(accepted)
 
     # binding self-tests on forged traces: each must be rejected while its original is accepted
     def forge_ret(c):       # a call returning another call's response
